@@ -129,14 +129,15 @@ def _probe(work, label, base):
 
 def model_checks(chk, tier, work):
     """Returns a list of thunks' results; run inside a thread pool."""
-    runs = [("StoreAbsMC", "StoreAbsMC", True, 900, 4, "abs")]
+    runs = [("StoreAbsMC", "StoreAbsMC", True, 900, 6, "abs")]
     if tier == "thorough":
         runs.append(("StoreAbsMC", "StoreAbsMCDeep", False, 1700, 6, "abs"))
-    runs.append(("StoreImpl", "StoreImplQ", False, 900, 4, "impl"))
-    runs.append(("StoreImpl", "StoreImplShape", False, 900, 4, "impl"))
+    runs.append(("StoreImpl", "StoreImplQ", False, 900, 4, "impl"))            # pointers/roots/recode, 4 operations
+    runs.append(("StoreImpl", "StoreImplShapeQ", False, 900, 4, "impl"))       # alloc/free/resize/collect, 5 operations
     if tier == "thorough":
-        runs.append(("StoreImpl", "StoreImpl", False, 1700, 6, "impl"))
-        runs.append(("StoreImpl", "StoreImplShapeDeep", False, 1700, 6, "impl"))
+        runs.append(("StoreImpl", "StoreImpl", False, 1700, 6, "impl"))            # 5 operations
+        runs.append(("StoreImpl", "StoreImplShape", False, 1700, 4, "impl"))       # 6 operations
+        runs.append(("StoreImpl", "StoreImplShapeDeep", False, 1700, 6, "impl"))   # 8 operations
 
     def one(run):
         mod, cfg, cov, to, w, kind = run
